@@ -5,7 +5,8 @@
    inside nested systems the nested scheduler queues the component and raises on behalf of the
    system (Model/Sim.v [raise_interrupt]); the system's Output then asks to be called back at once.
    Property theorems only. *)
-From TV Require Import Base Model.Wiring Model.Ticker Model.Master Proofs.MasterP.
+From TV Require Import Base Gen.SourceConsts Model.Wiring Model.Ticker Model.Component Model.Sim Model.Master Model.WakeFlag
+  Proofs.MasterP Proofs.WakeFlagP.
 Open Scope Z_scope.
 
 (* not lost: in any phase once the scheduler has started, the interrupt gives the component a
@@ -47,6 +48,22 @@ Proof. intros num den Hn Hd m r Hr. apply stamp_due; assumption. Qed.
 (* the tick that serves it has the component among its roots (C06), and starts after the interrupt.
    Example: interrupt at real time 10 during a tick that lasts from 0 to 20: served at 30 = 10 + the
    duration of the tick in progress, although a callback for simulation time 1000 is pending *)
+(* the scheduler stays alive to serve the next interrupt: Model/Master.v abstracts the new_wakeup
+   flag of MasterScheduler._do_tick away; Model/WakeFlag.v models it.  [master_idle_clears] is
+   extracted from the current source (whose _do_tick is checked to have the modelled statement
+   skeleton).  For every set of pending callbacks and every history of added wakeups, sleep ends
+   (with or without the flag waiter having completed) and finished ticks, the assertion of
+   _do_tick never fails. *)
+Theorem C07_master_never_dies : forall wk h,
+  w_pc (wrun master_idle_clears (winit master_idle_clears wk) h) <> WFailed.
+Proof. exact never_fails. Qed.
+
+(* the pinned loop (idle branch does not clear the flag): an interrupt that coincides with the end
+   of the sleep for the only pending callback kills the scheduler *)
+Theorem C07_pinned_loop_refuted :
+  w_pc (wrun false (winit false [(3%positive, 300)]) [EAdd 3%positive 300; EResume false; ETickDone]) = WFailed.
+Proof. exact fails_without_clear. Qed.
+
 Example C07_nonvacuous :
   let '(m1, _) := step [] [3%positive; 4%positive] 0 1 1 (m_init 0) 0 IStart in
   let '(m2, _) := step [] [3%positive; 4%positive] 0 1 1 m1 0 (IOutput 3%positive 0 [] (Some 1000)) in
